@@ -158,25 +158,31 @@ fn _contains_msg_sender_conditions(function_definition: &Box<FunctionDefinition>
 
         if let Expression::FunctionCall(_, box_identifier, function_args) = expression {
             //Skip if the function call is a selfdestruct, as it does not affect this vulnerability
-            if _is_selfdestruct(box_identifier) {
+            if _is_selfdestruct(box_identifier.clone()) {
+                continue;
+            }
+
+            //Skip type conversions such as `payable(msg.sender)`, they are not a check on the sender
+            if let Expression::Type(_, _) = *box_identifier {
                 continue;
             }
 
             for expression in function_args {
                 match expression {
                     //Match for both `function(msg.sender == owner)` or `function(msg.sender != owner)`
-                    Expression::Equal(_, box_expression, _)
-                    | Expression::NotEqual(_, box_expression, _) => {
-                        if let Expression::MemberAccess(_, box_expression, identifier) =
-                            *box_expression
-                        {
-                            //If the member access identifier is "msg.sender"
-                            let Identifier { name: right, .. } = identifier;
-                            if let Expression::Variable(Identifier { name: left, .. }) =
-                                *box_expression
-                            {
-                                if left == "msg" && right == "sender" {
-                                    return true;
+                    Expression::Equal(_, box_expression, box_expression_1)
+                    | Expression::NotEqual(_, box_expression, box_expression_1) => {
+                        //`msg.sender` may be on either side of the comparison
+                        for operand in [*box_expression, *box_expression_1] {
+                            if let Expression::MemberAccess(_, box_expression, identifier) = operand {
+                                //If the member access identifier is "msg.sender"
+                                let Identifier { name: right, .. } = identifier;
+                                if let Expression::Variable(Identifier { name: left, .. }) =
+                                    *box_expression
+                                {
+                                    if left == "msg" && right == "sender" {
+                                        return true;
+                                    }
                                 }
                             }
                         }
